@@ -142,3 +142,10 @@ Fixpoint chk_chain (t : tframe) (steps : list (effect * tframe)) : bool :=
   | [] => true
   | (e, t') :: r => effect_ok t e && tframe_eqb (cstep true t e) t' && closed t' && chk_chain t' r
   end.
+From NP Require Import Io.
+Definition outcol_eqb (a b : outcol) : bool :=
+  match a, b with
+  | OFlat x, OFlat y => str_eqb x y
+  | OStruct n f, OStruct n' f' => str_eqb n n' && list_eqb str_eqb f f'
+  | _, _ => false
+  end.
